@@ -79,7 +79,46 @@ def run(ctx):
         t2.append(instantiate2(bool(k % 2), h2, rnd, k)); ctx.mark(('blake2', k % 2, str(t2[-1]['scen']['calls'])))
     ctx.sample(dict(b=t2[3]['b'], scen=t2[3]['scen'], events=[{x: v for x, v in e.items() if x != 'm'} for e in t2[3]['ev']]))
     B2.validate(ctx, t2, 'BLAKE2 piecewise histories')
-    # Nilsimsa: update(a).update(b).digest() = Nilsimsa()(a|b) for every byte cut - judged by Trace_Nilsimsa (see c19) when available
+    # Nilsimsa: every byte cut, several cuts with short middle pieces, byte-at-a-time feeding (Trace_Simil over prim/Nilsimsa)
+    from crysp import nilsimsa as N
+    from core import B
+    nev = []
+    def words(n):
+        out = b''
+        while len(out) < n: out += rnd.choice([b'the', b'rain', b'in', b'spain', b'falls', b'mainly', b'0123', b'\n']) + b' '
+        return out[:n]
+    def feed(target, pieces, op):
+        e = dict(op=op, target=53 if target is None else target, raised='', obs=[])
+        if op == 'nil_split': e.update(a=B(pieces[0]), b=B(pieces[1]))
+        else: e['pieces'] = [B(x) for x in pieces]
+        try:
+            o = N.Nilsimsa() if target is None else N.Nilsimsa(target)
+            for x in pieces: o.update(x)
+            e['obs'] = B(o.digest())
+        except Exception as ex: e['raised'] = type(ex).__name__
+        nev.append(e)
+    for target in ((None, 17, 1) if big else (None, 17)):
+        for n in ((5, 9, 17, 40) if big else (6, 14)):
+            data = words(n)
+            for cut in range(n + 1): feed(target, [data[:cut], data[cut:]], 'nil_split'); ctx.mark(('nilcut', target, n, cut))
+        data = words(24)
+        for a in (range(0, 21, 2) if big else (2, 7, 13)):
+            for mid in (0, 1, 2, 3): feed(target, [data[:a], data[a:a + mid], data[a + mid:]], 'nil_multi'); ctx.mark(('nilmulti', target, a, mid))
+        feed(target, [data[j:j + 1] for j in range(len(data))], 'nil_multi')
+        for _ in range(8 if big else 2):
+            d2 = words(rnd.randrange(10, 70)); cuts = sorted(rnd.randrange(len(d2) + 1) for _ in range(rnd.randrange(2, 6)))
+            feed(target, [d2[x:y] for x, y in zip([0] + cuts, cuts + [len(d2)])], 'nil_multi')
+    ntr = [dict(ev=nev[i:i + 8]) for i in range(0, len(nev), 8)]
+    nbad = ctx.validate('trace/Trace_Simil.tla', ntr, lambda t: len(t['ev']), what='Nilsimsa cuts (Trace_Simil)')
+    ctx.evaluations += len(nev)
+    for tid, recs in nbad.items():
+        for rec in recs:
+            e = ntr[tid - 1]['ev'][rec['step'] - 1]
+            ps = [e['a'], e['b']] if e['op'] == 'nil_split' else e['pieces']
+            for cl in rec['bad']:
+                ctx.violation('nilsimsa.update', ('raises:' + e['raised']) if cl['c'] == 'must-not-raise' else 'wrong:digest-of-pieces', dict(op=e['op'], npieces=len(ps), piece_lengths=[len(x) for x in ps][:12], raised=e['raised']),
+                              dict(event=e, expected=cl['e']))
+    ctx.exhaustive_subspaces.append('Nilsimsa: every single byte cut of the seeded strings; three-piece cuts with middle pieces of 0..3 bytes; byte-at-a-time feeding')
     r = H.Rec('md5'); r.init(); r.update(b'x' * 64, padding=False); r.update(b'tail', padding=True)
     def corrupt(t): t['ev'][1]['bitcnt'][0] += 8; return t
     ctx.binding_selftest('trace/Trace_Hash.tla', dict(alg=H.ALGS['md5'], ev=r.ev), lambda t: len(t['ev']), corrupt, 'Trace_Hash: bit counter after a piece off by 8')
